@@ -514,9 +514,12 @@ func ruleSelectionsValidated(c *an.Ctx, o *an.O) {
 			o.Site(e)
 			// edges taken for __typename
 			blk := an.NewBlocker()
-			for _, ci := range an.CondIfs(fn, func(v ssa.Value) bool { return an.Expr(v) == "("+an.Expr(e)+".Name == \"__typename\")" }) {
-				if an.LoopHeaderOf(ci.If) == h {
-					blk.AddEdge(ci.If.Block(), ci.True)
+			for _, t := range an.EqTests(fn, func(x, y ssa.Value) bool {
+				cs, ok := an.ConstString(y)
+				return ok && cs == "__typename" && an.Expr(x) == an.Expr(e)+".Name"
+			}) {
+				if an.LoopHeaderOf(t.If) == h {
+					blk.AddEdge(t.If.Block(), t.Eq)
 				}
 			}
 			if isObj {
